@@ -8,7 +8,7 @@ from typing import Any, Dict, List, Optional, Set, Tuple
 from .. import linexpr as lx
 from ..core import AnalysisError, Report
 from ..linexpr import Env, py_ir, to_lin
-from ..pyfacts import Repo, inline_block, inline_predicates, canon_cond, push_not, calls, dotted, fold, norm, raise_guards, raised_class, walk_no_nested
+from ..pyfacts import Repo, cc, cn, inline_module_constants, expand_private_calls, normalize_counting_whiles, inline_block, inline_predicates, canon_cond, push_not, calls, dotted, fold, norm, raise_guards, raised_class, walk_no_nested
 
 W = 'flipjump/fjm/fjm_writer.py'
 R = 'flipjump/fjm/fjm_reader.py'
@@ -63,6 +63,11 @@ def classify_guard(test: ast.expr) -> Set[str]:
         elif ('segment_start' in t and 'segment_length' in t and ('1<<64' in t or '2**64' in t)):
             out.add('V9')
     return out
+
+
+def _reader_init_memory(repo: Repo) -> ast.FunctionDef:
+    """Reader._init_memory with its private helper methods expanded in place and counting `while` loops read as `for`."""
+    return normalize_counting_whiles(expand_private_calls(repo, R, repo.func(R, 'Reader._init_memory'), 'Reader'))       # type: ignore[return-value]
 
 
 def rule_formats(rep: Report, repo: Repo) -> None:
@@ -123,7 +128,7 @@ def rule_fields(rep: Report, repo: Repo) -> None:
     # segment record order: appended tuple in add_segment == loop target in _init_memory == pack(*segment)
     add = repo.func(W, 'Writer.add_segment')
     app = [norm(c.args[0]) for c in calls(add) if dotted(c.func) == 'self.segments.append']
-    im = repo.func(R, 'Reader._init_memory')
+    im = _reader_init_memory(repo)
     loop = [norm(n.target) for n in ast.walk(im) if isinstance(n, ast.For) and norm(n.iter) == 'segments']
     star = packs.get('_segment_format')
     want = '(segment_start, segment_length, data_start, data_length)'
@@ -137,7 +142,7 @@ def rule_version_gates(rep: Report, repo: Repo) -> None:
     REL = "self.version in (FJMVersion.RelativeJumpVersion, FJMVersion.CompressedVersion)"
     def tests(rel: str, fn: str) -> List[str]:
         # a private predicate method (`self._is_relative_jumps_version()`) stands for the expression it returns
-        return [norm(inline_predicates(repo, rel, fn.split('.')[0] if '.' in fn else None, n.test))
+        return [norm(inline_module_constants(repo, rel, inline_predicates(repo, rel, fn.split('.')[0] if '.' in fn else None, n.test)))
                 for n in ast.walk(repo.func(rel, fn)) if isinstance(n, ast.If)]
     w_ext = [t for t in tests(W, 'Writer.write_to_file') if 'BaseVersion' in t]
     r_ext = [t for t in tests(R, 'Reader._init_header_fields') if 'BaseVersion' in t]
@@ -166,7 +171,7 @@ def rule_version_gates(rep: Report, repo: Repo) -> None:
 def rule_reljump(rep: Report, repo: Repo) -> None:
     rep.rule('C06.RELJUMP-INVERSE', 'the relative-jump encode and decode are syntactic inverses modulo 2^w: same index set '
              '(odd k below the even data length), same offset (segment_start + k) * w with opposite signs, same mask', 5)
-    wf = repo.func(W, 'Writer._update_to_relative_jumps')
+    wf = normalize_counting_whiles(repo.func(W, 'Writer._update_to_relative_jumps'))
     loop = [n for n in ast.walk(wf) if isinstance(n, ast.For)][0]
     wr = norm(loop.iter)
     wbody = inline_block(loop.body)              # named temporaries of the loop body are substituted
@@ -176,7 +181,7 @@ def rule_reljump(rep: Report, repo: Repo) -> None:
         raise AnalysisError('_update_to_relative_jumps: unexpected loop body')
     w_idx = lx.lin_show(to_lin(py_ir(st.targets[0].slice), wenv))
     w_val = py_ir(st.value)
-    im = repo.func(R, 'Reader._init_memory')
+    im = _reader_init_memory(repo)
     rl = [n for n in ast.walk(im) if isinstance(n, ast.For) and norm(n.iter).startswith('range(0, data_length')]
     if not rl:
         raise AnalysisError('_init_memory: relative-jump loop not found')
@@ -223,7 +228,7 @@ def rule_reljump(rep: Report, repo: Repo) -> None:
 def rule_zerofill(rep: Report, repo: Repo) -> None:
     rep.rule('C06.ZEROFILL', 'both zero-tail branches cover [data_length, segment_length) relative to segment_start; the lazy '
              'ranges are consulted by the word reader before garbage is declared; the plain copy covers [0, data_length)', 4)
-    im = repo.func(R, 'Reader._init_memory')
+    im = _reader_init_memory(repo)
     site = f'{R}:{im.lineno} Reader._init_memory'
     dense = [n for n in ast.walk(im) if isinstance(n, ast.For) and norm(n.iter) == 'range(data_length, segment_length)']
     ok_dense = bool(dense) and norm(dense[0].body[0]) == 'self.memory[segment_start + i] = 0'
@@ -338,22 +343,23 @@ def writer_validated(repo: Repo) -> Tuple[Set[str], Dict[str, str]]:
 def reader_rejected(repo: Repo) -> Tuple[Set[str], Dict[str, str]]:
     got: Set[str] = set()
     where: Dict[str, str] = {}
-    f = repo.func(R, 'Reader._init_memory')
+    f = _reader_init_memory(repo)
     for test, r, outer in raise_guards(f):
         if raised_class(r) != 'FlipJumpReadFjmException':
             continue
         for v in classify_guard(test):
             got.add(v)
             where[v] = f'{R}:{test.lineno}'
-    # overlap rejection lives in a helper called from _init_memory
-    for c in calls(f):
-        if dotted(c.func) == 'self._validate_segments_not_overlapping' and repo.has_func(R, 'Reader._validate_segments_not_overlapping'):
-            hf = repo.func(R, 'Reader._validate_segments_not_overlapping')
-            tests = [norm(t) for t, r, _ in raise_guards(hf) if raised_class(r) == 'FlipJumpReadFjmException']
-            srt = any(isinstance(x, ast.Call) and dotted(x.func) == 'sorted' for x in ast.walk(hf))
-            if srt and any(t.replace(' ', '') in ('start2<end1', 'end1>start2') for t in tests):
-                got.add('V7')
-                where['V7'] = f'{R}:{hf.lineno}'
+    # overlap rejection: a sorted sweep with a raise when the next start lies before the previous end - in _init_memory itself
+    # (helpers are expanded in place) or in a private helper it still calls
+    bodies = [f] + [repo.func(R, f'Reader.{dotted(c.func).split(".")[1]}') for c in calls(f)
+                    if dotted(c.func).startswith('self._') and repo.has_func(R, f'Reader.{dotted(c.func).split(".")[1]}')]
+    for hf in bodies:
+        tests = [cn(t) for t, r, _ in raise_guards(hf) if raised_class(r) == 'FlipJumpReadFjmException']
+        srt = any(isinstance(x, ast.Call) and dotted(x.func) == 'sorted' for x in ast.walk(hf))
+        if srt and cc('start2 < end1') in tests:
+            got.add('V7')
+            where['V7'] = f'{R}:{hf.lineno}'
     return got, where
 
 
